@@ -247,20 +247,45 @@ def stats_rules(run, db):
         raw = [r for r in reductions if not r[1]]
         run.check(bool(reductions) and not raw, 'C12.stats', fi.qual, 'finite mask', 'every reduction in %s runs over array[isfinite(array)]' % name,
                   '%s reduces over samples that were not selected by the finite mask: %s' % (name, [r[0] for r in raw]), fi.loc(raw[0][2]) if raw else fi.loc())
-    # delegation
-    from ..core.pattern import match_all
+    # delegation and piston: decided on values, with the util statistics summarised as functions of their argument
+    from ..core.interp import Obj as _Obj
+    cii = db.cls(I)
+    it2, dom2 = norm_interp(db)
+    op2 = dom2.call_prysm
+
+    def call_prysm2(fi_, args, kws, node):
+        if fi_.module.name == 'prysm.util' and fi_.name in ('pv', 'rms', 'Sa', 'std', 'mean'):
+            a0 = args[0] if args else kws.get('array')
+            if dom2.rat(a0) is None:
+                return Unknown('statistic of something that is not followed')
+            return dom2.func_atom('util_' + fi_.name, [a0])
+        return op2(fi_, args, kws, node) if op2 else None
+    dom2.call_prysm = call_prysm2
+    holder2 = {}
+
+    def mkself2():
+        o = _Obj(cii)
+        o.attrs.update({'data': dom2.sym('DATA'), 'dx': dom2.sym('dx'), '_x': Const(None), '_y': Const(None), '_r': Const(None), '_t': Const(None)})
+        holder2['o'] = o
+        return o
+    R2 = dom2.R
+    DATA = Rat(R2.atom('DATA'))
     for prop, callee in (('pv', 'pv'), ('rms', 'rms'), ('Sa', 'Sa'), ('std', 'std')):
         fi = db.func(I + '.' + prop)
-        rets = [n_ for n_ in walk_no_nested(fi.node) if isinstance(n_, ast.Return)]
-        ok = len(rets) == 1 and isinstance(rets[0].value, ast.Call) and ast.unparse(rets[0].value.func) == callee and [ast.unparse(a) for a in rets[0].value.args] == ['self.data']
-        ok = ok or match_all(fi.node, ['V_d = self.data', 'return %s(V_d)' % callee], ordered=True) is not None
-        run.check(ok, 'C12.stats', fi.qual, 'delegation', 'Interferogram.%s == util.%s(self.data)' % (prop, callee), 'Interferogram.%s does not delegate to %s(self.data)' % (prop, callee), fi.loc())
+        res2 = returns(it2.run(fi, self_obj=mkself2), fi)
+        got = dom2.rat(res2[0].value)
+        if got is None:
+            raise AnalysisError('Interferogram.%s: the returned value is not followed (%r)' % (prop, res2[0].value))
+        want = Rat(R2.func('util_' + callee, [DATA]))
+        run.check(len(res2) == 1 and got == want, 'C12.stats', fi.qual, 'delegation', 'Interferogram.%s == util.%s(self.data)' % (prop, callee),
+                  'Interferogram.%s returns %s, not util.%s of the data' % (prop, got.key(), callee), fi.loc())
     fi = db.func(I + '.remove_piston')
-    src = [n_ for n_ in walk_no_nested(fi.node) if isinstance(n_, ast.AugAssign)]
-    from ..core.pattern import match_all
-    ok = len(src) == 1 and (match_all(fi.node, ['self.data -= mean(self.data)']) is not None
-                            or match_all(fi.node, ['V_p = mean(self.data)', 'self.data -= V_p'], ordered=True) is not None)
-    run.check(ok, 'C12.stats', fi.qual, 'piston', 'remove_piston subtracts the NaN-aware mean of the data', 'remove_piston does not subtract mean(self.data)', fi.loc())
+    res2 = returns(it2.run(fi, self_obj=mkself2), fi)
+    after = dom2.rat(holder2['o'].attrs.get('data'))
+    if after is None:
+        raise AnalysisError('remove_piston: the data after the call is not followed (%r)' % (holder2['o'].attrs.get('data'),))
+    want = DATA - Rat(R2.func('util_mean', [DATA]))
+    run.check(after == want, 'C12.stats', fi.qual, 'piston', 'remove_piston subtracts the NaN-aware mean of the data', 'after remove_piston the data are %s, expected data - mean(data)' % after.key(), fi.loc())
 
 
 def crop_rules(run, db):
@@ -459,6 +484,8 @@ def fit_rules(run, db):
     v = res[0].value
     oks = isinstance(v, _Tup) and len(v.items) == 2 and isinstance(v.items[0], MaskV) and dom.rat(v.items[0].of) is not None and dom.rat(v.items[0].of) == A('z') \
         and len(brat) == 2 and all(b is not None for b in brat) and dom.rat(rhs) is not None and dom.rat(rhs) == A('z')
+    if any(b is None for b in brat) or not (isinstance(v, _Tup) and len(v.items) == 2) or dom.rat(v.items[1]) is None or dom.rat(rhs) is None:
+        raise AnalysisError('fit_sphere: the basis, the right-hand side or the returned term is not followed (basis %s, returns %r)' % ([b.key() if b is not None else '?' for b in brat], v))
     if oks:
         kf = [k for k, b in enumerate(brat) if b == focus]
         k1 = [k for k, b in enumerate(brat) if b == Rat(R.const(1))]
@@ -466,15 +493,74 @@ def fit_rules(run, db):
     run.check(oks, 'C12.fit', fs.qual, 'power fit', 'power is fitted to the valid data with basis [rho^2, 1]; the removed term is its own coefficient times rho^2 over the valid samples',
               'fit_sphere: basis %s, right-hand side %s, returns %r -- not (isfinite(z), coef_rho2 * rho^2) from a fit of [rho^2, 1] to the valid data'
               % ([b.key() if b is not None else '?' for b in brat], dom.rat(rhs).key() if dom.rat(rhs) is not None else repr(rhs), v), fs.loc())
-    from ..core.pattern import match_all
-    fr = db.func(I + 'Interferogram.remove_tiptilt')
-    bt = match_all(fr.node, ['V_p = fit_plane(self.x, self.y, self.data)', 'self.data -= V_p'], ordered=True) or match_all(fr.node, ['self.data -= fit_plane(self.x, self.y, self.data)'])
-    run.check(bt is not None, 'C12.fit', fr.qual, 'tilt removal', 'the plane fitted to (x, y, data) is subtracted from the data',
-              'remove_tiptilt wiring changed: %s' % [norm_stmt(st) for st in fr.node.body[1:3]], fr.loc())
-    fp = db.func(I + 'Interferogram.remove_power')
-    bp = match_all(fp.node, ['V_m, V_s = fit_sphere(self.data)', 'self.data[V_m] -= V_s'], ordered=True)
-    run.check(bp is not None, 'C12.fit', fp.qual, 'power removal',
-              'the sphere fitted to the valid data is subtracted on the valid samples', 'remove_power wiring changed: %s' % [norm_stmt(st) for st in fp.node.body[1:3]], fp.loc())
+    # tilt / power removal: decided on what happens to self.data, with the fit routines summarised (tokens)
+    from ..core.interp import Domain, Value, Obj as _Obj2
+    from .common import bind_call
+
+    class Tk(Value):
+        def __init__(self, kind, *args):
+            self.kind, self.args = kind, args
+
+        def __repr__(self):
+            return self.kind if not self.args else '%s(%s)' % (self.kind, ', '.join(map(repr, self.args)))
+
+    def same_tk(a, b):
+        return a is b or (isinstance(a, Tk) and isinstance(b, Tk) and a.kind == b.kind and len(a.args) == len(b.args) and all(same_tk(x_, y_) for x_, y_ in zip(a.args, b.args)))
+
+    class RD(Domain):
+        def __init__(self):
+            self.fits, self.stores = [], []
+
+        def call_prysm(self, fi_, args, kws, node):
+            if fi_.name == 'fit_plane':
+                self.fits.append(('fit_plane', bind_call(fi_, args, kws)))
+                return Tk('PLANE')
+            if fi_.name == 'fit_sphere':
+                self.fits.append(('fit_sphere', bind_call(fi_, args, kws)))
+                return _Tup([Tk('VALID'), Tk('SPHERE')])
+            return None
+
+        def subscript(self, v, idx, node):
+            if isinstance(v, Tk):
+                return Tk('sel', v, idx)
+            return None
+
+        def binop(self, op, a, b, node):
+            if isinstance(a, Tk) and isinstance(b, Tk):
+                return Tk(type(op).__name__, a, b)
+            return None
+
+        def store_subscript(self, target, idx, val, node):
+            self.stores.append((target, idx, val))
+            return True
+    cinf = db.cls(I + 'Interferogram')
+    for meth, fitname in (('remove_tiptilt', 'fit_plane'), ('remove_power', 'fit_sphere')):
+        fm = db.func(I + 'Interferogram.' + meth)
+        rd = RD()
+        itr = Interp(db, rd)
+        hold = {}
+
+        def mk_():
+            o = _Obj2(cinf)
+            o.attrs.update({'data': Tk('DATA'), '_x': Tk('X'), '_y': Tk('Y'), 'dx': Unknown('dx'), '_r': Const(None), '_t': Const(None)})
+            hold['o'] = o
+            return o
+        rr = [p_ for p_ in itr.run(fm, self_obj=mk_) if p_.outcome == 'return']
+        if len(rr) != 1 or len(rd.fits) != 1 or rd.fits[0][0] != fitname:
+            raise AnalysisError('%s: expected one path with one call of %s, got %d paths, fits %s' % (meth, fitname, len(rr), [f_[0] for f_ in rd.fits]))
+        b = rd.fits[0][1]
+        data_after = hold['o'].attrs.get('data')
+        if meth == 'remove_tiptilt':
+            okf = same_tk(b.get('x'), Tk('X')) and same_tk(b.get('y'), Tk('Y')) and same_tk(b.get('z'), Tk('DATA'))
+            okd = same_tk(data_after, Tk('Sub', Tk('DATA'), Tk('PLANE'))) and not rd.stores
+            run.check(okf and okd, 'C12.fit', fm.qual, 'tilt removal', 'the plane fitted to (x, y, data) is subtracted from the data',
+                      'remove_tiptilt fits %s and leaves the data as %r (expected a fit of (X, Y, DATA) and DATA - PLANE)' % ({k: repr(v_) for k, v_ in b.items()}, data_after), fm.loc())
+        else:
+            okf = same_tk(list(b.values())[0], Tk('DATA')) if b else False
+            want = (Tk('DATA'), Tk('VALID'), Tk('Sub', Tk('sel', Tk('DATA'), Tk('VALID')), Tk('SPHERE')))
+            okd = len(rd.stores) == 1 and all(same_tk(x_, y_) for x_, y_ in zip(rd.stores[0], want)) and same_tk(data_after, Tk('DATA'))
+            run.check(okf and okd, 'C12.fit', fm.qual, 'power removal', 'the sphere fitted to the valid data is subtracted on the valid samples',
+                      'remove_power fits %s and writes %r (expected a fit of DATA and DATA[VALID] -= SPHERE)' % ({k: repr(v_) for k, v_ in b.items()}, rd.stores[:2]), fm.loc())
 
 
 def check(run, db, tier):
